@@ -13,6 +13,7 @@ PROPERTY = "C12"
 FUNCTIONS = ["EventDispatcher.add_listener/dispatch/_do_dispatch/_sort_listeners/get_listeners/has_listeners/get_listener_priority",
              "Event.stop_propagation/is_propagation_stopped"]
 PART = {}
+EXTRA_BOUNDS = 'also: skeleton steps S (the first callable registered once more) and N (a listener that registers a further listener while it is being called); seqsym: EVERY sequence of 3 (thorough 4) operations from {register e1, register e2, dispatch round} followed by two rounds.'
 EVENTS = ["e1", "e2", "e3"]
 BOUNDS = {"quick": "skeletons of <= 4 registrations and <= 2 dispatch rounds (each round = dispatch e1,e2,e3 + all queries), priorities in {-1,0,1}, stops in {F,T}, events e1/e2 for registration",
           "thorough": "skeletons of <= 5 registrations and <= 3 dispatch rounds (sequence length up to 8 operations)"}
